@@ -1,6 +1,6 @@
 (* Props_C11.v — concurrent requests on a repository.  Model: Conc.v (requests in flight = an interleaving, chosen by a
    scheduler, of the atomic store actions of their handlers; every action is one critical section of the store). *)
-From Olareg Require Import Base Index IndexProofs Reg RegProofs Conc.
+From Olareg Require Import Base Index IndexProofs Reg RegProofs Conc ConcAtomic.
 Local Open Scope list_scope.
 
 (* whatever the atomic actions preserve holds in every state of every schedule of any set of requests ... *)
@@ -46,3 +46,42 @@ Theorem C11_concurrent_tag_pushes_all_present : forall cfg E r D,
       In d (top (r_index (get_repo cfg r (exec_acts cfg E acts s)))).
 Proof. exact concurrent_tag_pushes_all_present. Qed.
 Print Assumptions C11_concurrent_tag_pushes_all_present.
+
+(* ---- what another client can see of a request in flight ------------------------------------------------------------------ *)
+(* Only IndexInsert / IndexRemove change an index; every other store action leaves the index of every repository as it is. *)
+Theorem C11_only_index_writes_change_an_index : forall cfg E a s r',
+  is_iw a = false -> r_index (get_repo cfg r' (fst (exec_act cfg E a s))) = r_index (get_repo cfg r' s).
+Proof. exact other_actions_keep_indexes. Qed.
+
+(* A request with at most n index writes on every path: while it runs - under any schedule, its actions being atomic - the
+   index another client reads moves through at most n new values, in order, never back. *)
+Theorem C11_index_seen_during_a_request : forall cfg E r' n p, IW n p -> forall s,
+  exists vals, (List.length vals <= n)%nat /\ follows (r_index (get_repo cfg r' s)) vals (idx_trace cfg E r' p s).
+Proof. exact IW_trace. Qed.
+Print Assumptions C11_index_seen_during_a_request.
+
+(* One write at most, hence atomic for everything read through the index, on every path of: a manifest push without a subject
+   (or with the referrers API off), a delete by tag, every read, and the whole blob / upload side (which never writes an index) *)
+Theorem C11_plain_push_is_atomic : forall cfg E r arg ctype clen dq body,
+  c_referrer cfg = false \/ j_subject (e_view E body) = None -> IW 1 (h_manifest_put cfg E r arg ctype clen dq body).
+Proof. exact manifest_put_plain_is_atomic. Qed.
+
+Theorem C11_delete_by_tag_is_atomic : forall cfg E r arg, is_tag arg = true -> IW 1 (h_manifest_delete cfg E r arg).
+Proof. exact manifest_delete_by_tag_is_atomic. Qed.
+
+Theorem C11_reads_write_nothing : forall E r arg acc rng n last filter,
+  IW 0 (h_manifest_get E r arg acc rng) /\ IW 0 (h_tag_list r n last) /\ IW 0 (h_referrers E r arg filter) /\ IW 0 (h_blob_get E r arg rng).
+Proof. exact reads_write_no_index. Qed.
+
+Theorem C11_blob_side_writes_no_index : forall cfg E r sid cr dg st body m f fo dq aq arg,
+  IW 0 (upload_patch E r sid cr st body) /\ IW 0 (upload_put E r sid cr dg st body) /\ IW 0 (upload_post cfg r m f fo dq aq body)
+  /\ IW 0 (h_blob_delete cfg r arg) /\ IW 0 (h_upload_get E r sid) /\ IW 0 (h_upload_delete r sid).
+Proof. exact blob_side_writes_no_index. Qed.
+
+(* The exceptions, exactly: a push or a delete by digest of a manifest with a subject writes twice - the entry and the referrers
+   response - and never more (finding F53: the state between the two writes is observable; the paused-request exploration of
+   lib/c11.py shows it on the implementation and shows nothing else) *)
+Theorem C11_artifact_requests_write_twice_at_most : forall cfg E r arg ctype clen dq body,
+  IW 2 (h_manifest_put cfg E r arg ctype clen dq body) /\ IW 2 (h_manifest_delete cfg E r arg).
+Proof. intros. split; [apply manifest_put_writes_twice_at_most|apply manifest_delete_writes_twice_at_most]. Qed.
+Print Assumptions C11_artifact_requests_write_twice_at_most.
